@@ -56,6 +56,9 @@ THEOREMS = [
     "Nix.C08.C08_region_by_key",
     "Nix.C08.C08_feature_lookup",
     "Nix.C08.C08_feature_by_key",
+    "Nix.C08.C08_axis_off_band",
+    "Nix.C08.C08_region_off_band",
+    "Nix.C08.C08_axis_on_samples",
     "Nix.C08.C08_axis_full_counterexample",
 ]
 ASSUMPTIONS = [
